@@ -8,6 +8,7 @@ import (
 	"github.com/mithrandie/csvq/lib/option"
 	"github.com/mithrandie/csvq/lib/parser"
 	"github.com/mithrandie/csvq/lib/value"
+	"github.com/mithrandie/csvq/lib/vhook"
 )
 
 func FetchCursor(ctx context.Context, scope *ReferenceScope, name parser.Identifier, fetchPosition parser.FetchPosition, vars []parser.Variable) (bool, error) {
@@ -358,6 +359,7 @@ func Insert(ctx context.Context, scope *ReferenceScope, query parser.InsertQuery
 		query.Table,
 	}
 
+	vhook.AwaitMutex("operation", queryScope.Tx.operationMutex)
 	queryScope.Tx.operationMutex.Lock()
 	defer queryScope.Tx.operationMutex.Unlock()
 
@@ -411,6 +413,7 @@ func Update(ctx context.Context, scope *ReferenceScope, query parser.UpdateQuery
 		query.FromClause = parser.FromClause{Tables: query.Tables}
 	}
 
+	vhook.AwaitMutex("operation", queryScope.Tx.operationMutex)
 	queryScope.Tx.operationMutex.Lock()
 	defer queryScope.Tx.operationMutex.Unlock()
 
@@ -547,6 +550,7 @@ func Replace(ctx context.Context, scope *ReferenceScope, query parser.ReplaceQue
 		query.Table,
 	}
 
+	vhook.AwaitMutex("operation", queryScope.Tx.operationMutex)
 	queryScope.Tx.operationMutex.Lock()
 	defer queryScope.Tx.operationMutex.Unlock()
 
@@ -604,6 +608,7 @@ func Delete(ctx context.Context, scope *ReferenceScope, query parser.DeleteQuery
 		query.Tables = tables
 	}
 
+	vhook.AwaitMutex("operation", queryScope.Tx.operationMutex)
 	queryScope.Tx.operationMutex.Lock()
 	defer queryScope.Tx.operationMutex.Unlock()
 
@@ -774,6 +779,7 @@ func AddColumns(ctx context.Context, scope *ReferenceScope, query parser.AddColu
 		}
 	}
 
+	vhook.AwaitMutex("operation", queryScope.Tx.operationMutex)
 	queryScope.Tx.operationMutex.Lock()
 	defer queryScope.Tx.operationMutex.Unlock()
 
@@ -890,6 +896,7 @@ func DropColumns(ctx context.Context, scope *ReferenceScope, query parser.DropCo
 	queryScope := scope.CreateNode()
 	defer queryScope.CloseCurrentNode()
 
+	vhook.AwaitMutex("operation", queryScope.Tx.operationMutex)
 	queryScope.Tx.operationMutex.Lock()
 	defer queryScope.Tx.operationMutex.Unlock()
 
@@ -937,6 +944,7 @@ func RenameColumn(ctx context.Context, scope *ReferenceScope, query parser.Renam
 	queryScope := scope.CreateNode()
 	defer queryScope.CloseCurrentNode()
 
+	vhook.AwaitMutex("operation", queryScope.Tx.operationMutex)
 	queryScope.Tx.operationMutex.Lock()
 	defer queryScope.Tx.operationMutex.Unlock()
 
@@ -979,6 +987,7 @@ func SetTableAttribute(ctx context.Context, scope *ReferenceScope, query parser.
 	queryScope := scope.CreateNode()
 	defer queryScope.CloseCurrentNode()
 
+	vhook.AwaitMutex("operation", queryScope.Tx.operationMutex)
 	queryScope.Tx.operationMutex.Lock()
 	defer queryScope.Tx.operationMutex.Unlock()
 
